@@ -90,12 +90,32 @@ theorem set8 (c : Bytes) (h : 8 ≤ c.length) (x0 x1 x2 x3 x4 x5 x6 x7 : UInt8) 
   match c, h with
   | _ :: _ :: _ :: _ :: _ :: _ :: _ :: _ :: rest, _ => simp
 
+theorem contents_mem (b : SBuf.SBuf) (m : List UInt8) :
+    SBuf.contents { b with mem := m } = (m.drop b.start).take (b.len - b.start) := rfl
+
+/-- Eight stores at the start of the contents replace exactly the first eight bytes. -/
+theorem drop_take_set8 (m : List UInt8) (s k : Nat) (hk : 8 ≤ k) (hm : s + k ≤ m.length)
+    (x0 x1 x2 x3 x4 x5 x6 x7 : UInt8) :
+    ((((((((((m.set s x0).set (s + 1) x1).set (s + 2) x2).set (s + 3) x3).set (s + 4) x4).set (s + 5) x5).set
+      (s + 6) x6).set (s + 7) x7).drop s).take k)
+      = [x0, x1, x2, x3, x4, x5, x6, x7] ++ ((m.drop s).take k).drop 8 := by
+  have e : ∀ i, s + i - s = i := by intro i; omega
+  have n : ∀ i, ¬ (s + i < s) := by intro i; omega
+  have n0 : ¬ (s < s) := by omega
+  simp only [List.drop_set, List.take_set, n, n0, if_false, e, Nat.sub_self]
+  exact set8 _ (by simp [List.length_take, List.length_drop]; omega) ..
+
 theorem serializeInto_spec (l : Layer) (n : Nat) (b : SBuf.SBuf) (w : SBuf.Win) (fix csum : Bool)
     (hI : Gp.C18.Inv b) (hg : w.gen = b.gen) (ho : w.off = b.start) (hn : w.n = 8)
     (hl : b.start + 8 ≤ b.len) (hlen : ((SBuf.contents b).drop 8).length = n) :
     view (serializeInto l n b w fix csum) = serializeSpec l ((SBuf.contents b).drop 8) fix csum := by
-  simp [serializeInto, put16At, SBuf.write, hn, hg]
-  trace_state
-  sorry
+  obtain ⟨_, h2, _⟩ := hI
+  have hk : 8 ≤ b.len - b.start := by omega
+  have hm : b.start + (b.len - b.start) ≤ b.mem.length := by omega
+  cases fix <;> cases csum <;>
+    simp [serializeInto, put16At, SBuf.write, hn, hg, ho, serializeSpec, fixLen, view, header, putBe16, hlen,
+      contents_mem, drop_take_set8 _ _ _ hk hm]
+  all_goals trace_state
+  all_goals sorry
 
 end Gp.Udp
